@@ -263,7 +263,7 @@ let crt_case toks =
            for i = 0 to n - 1 do let r = coef_res 0 i in out (model_lift r) (Z.to_string (spec_lift r)) done;
            out "|" "|";
            for i = 0 to n - 1 do let r = coef_res 0 i in out (model_lift r) (Z.to_string (spec_lift r)) done
-       | "unlift" ->
+       | "unlift" | "unlift_set" | "unlift_ctor" ->
            for cm = 0 to nm - 1 do for i = 0 to n - 1 do
              let m = if with_model then str (List.nth (M.mpz2poly_coef ps (cz_of_zz zw.(i))) cm) else "?" in
              out m (Z.to_string (Z.erem zw.(i) psz.(cm))) done done
